@@ -343,7 +343,8 @@ def main(sys_args=None):
                 time_point_str = args.items[0]
             out = date_time_oper.process_time_point_str(
                 time_point_str, args.offsets1, args.print_format)
-    except ValueError as exc:
+    except (ValueError, OverflowError) as exc:
+        # (OverflowError: numbers too large to do date-time arithmetic with)
         sys.exit(exc)
     else:
         print(out)
